@@ -19,7 +19,7 @@ RULE = ("case = list of operations; non-trivial = a start or resume that re-inje
         "resume that flushes >=2 posts; distinct by sha1(case)")
 ASSUMPTIONS = ["single agent; no concurrent thread touches the queue (thread interleavings belong to C18/C21)"]
 BUDGET = {"quick": {"workers": 8, "examples": 2500, "seconds": 40},
-          "thorough": {"workers": 16, "examples": 10000, "seconds": 480}}
+          "thorough": {"workers": 16, "examples": 30000, "seconds": 480}}
 
 op = st.one_of(
     st.tuples(st.just("recv"), st.integers(0, 2)),
